@@ -182,8 +182,25 @@ def r3_normal_form(ctx: Ctx) -> None:
                 and isinstance(n.func.value, ast.Name) and n.func.value.id == 'resolved']
         if len(adds) < 2:
             ctx.unknown('C02.R3', f, f'{len(adds)} tag additions found (static and dynamic arms expected)')
+        # a value that is handed over by a generator of the package (`for text in _tag_values(value): resolved.add(text)`) is judged where it is
+        # produced: every `yield X` of that generator is held to the same standard as an add
+        work = []
         for n in adds:
             v = n.args[0]
+            gen = None
+            if isinstance(v, ast.Name):
+                for a_ in ancestors(n):
+                    if isinstance(a_, ast.For) and isinstance(a_.target, ast.Name) and a_.target.id == v.id and isinstance(a_.iter, ast.Call) and isinstance(a_.iter.func, ast.Name):
+                        r_ = proj.resolve_name(f.module, a_.iter.func.id)
+                        if r_ and r_[0] == 'func' and any(isinstance(y, ast.Yield) for y in ast.walk(r_[1].node)):
+                            gen = r_[1]
+            if gen is None:
+                work.append((f, fl, n, v))
+            else:
+                gfl_ = get_flow(proj, gen)
+                for y in [y for y in ast.walk(gen.node) if isinstance(y, ast.Yield) and y.value is not None]:
+                    work.append((gen, gfl_, y, y.value))
+        for f, fl, n, v in work:
             label = f'add:{src(v)}'
             lowered = isinstance(v, ast.Call) and isinstance(v.func, ast.Attribute) and v.func.attr == 'lower' and not v.args
             if not lowered:
